@@ -98,3 +98,101 @@ def judge_C03(mm):
     if changed(sc, r, runner.H_ACEH) and pf:
         return 'Access-Control-Expose-Headers on a preflight response'
     return None
+
+
+import re
+
+_SCHEME = re.compile(rb'^[a-z][a-z0-9+.-]{0,63}$')
+_LABEL = re.compile(rb'^[a-z0-9]([a-z0-9-]{0,61}[a-z0-9])?$')
+
+
+def _documented(sb):
+    """True if the byte string is clearly of the documented pattern form (LDH domain or canonical IPv4 host);
+    None when the string is in a zone this judge does not decide (IPv6, punycode, underscores, hyphens in 3-4, ...)."""
+    m = re.match(rb'^([^:/]*)://(.*)$', sb, re.S)
+    if not m:
+        return None
+    scheme, rest = m.group(1), m.group(2)
+    if not _SCHEME.match(scheme) or scheme == b'file':
+        return None
+    port = b''
+    host = rest
+    if b':' in rest and not rest.startswith(b'['):
+        host, _, port = rest.rpartition(b':')
+    elif rest.startswith(b'['):
+        return None
+    wild = host.startswith(b'*.')
+    base = host[2:] if wild else host
+    body = base[:-1] if base.endswith(b'.') else base
+    if not body or len(body) > (251 if wild else 253):
+        return None
+    labels = body.split(b'.')
+    is_ip = all(l.isdigit() for l in labels)
+    if is_ip:
+        if wild or len(labels) != 4 or base.endswith(b'.') or scheme == b'https':
+            return None
+        for l in labels:
+            if (len(l) > 1 and l[:1] == b'0') or int(l) > 255:
+                return None
+    else:
+        for l in labels:
+            if not _LABEL.match(l) or l.startswith(b'xn--') or (len(l) > 4 and l[2:4] == b'--'):
+                return None
+        if labels[-1][:1].isdigit():
+            return None
+    if rest.count(b':') > 1:
+        return None
+    if port:
+        if port == b'*':
+            return True
+        if not re.match(rb'^[1-9][0-9]{0,4}$', port) or int(port) > 65535:
+            return None
+        if (scheme == b'http' and port == b'80') or (scheme == b'https' and port == b'443'):
+            return None
+    elif b':' in rest:
+        return None
+    return True
+
+
+def _defect(sb):
+    """A documented defect that is decidable from the bytes alone; returns its name or None."""
+    if sb in (b'null',):
+        return 'null'
+    if sb.startswith(b'file:'):
+        return 'file scheme'
+    m = re.match(rb'^([a-z][a-z0-9+.-]{0,63})://(.*)$', sb, re.S)
+    if not m:
+        return None
+    rest = m.group(2)
+    for ch, name in ((b'@', 'userinfo'), (b'/', 'path'), (b'?', 'query'), (b'#', 'fragment'), (b' ', 'whitespace'), (b'\t', 'whitespace')):
+        if ch in rest:
+            return name
+    if any(c >= 0x80 for c in rest):
+        return 'non-ASCII host'
+    if any(0x41 <= c <= 0x5a for c in rest):
+        return 'upper-case host'
+    if not rest.startswith(b'['):
+        host, sep, port = rest.rpartition(b':')
+        if sep:
+            if port in (b'', b'0') or re.match(rb'^0[0-9]+$', port) or re.match(rb'^[0-9]{6,}$', port) or (port.isdigit() and int(port) > 65535):
+                return 'bad port ' + port.decode('latin1')
+            if (m.group(1) == b'http' and port == b'80') or (m.group(1) == b'https' and port == b'443'):
+                return 'default port'
+    return None
+
+
+def judge_C13(mm):
+    """Documented grammar (decidable fragment) against the implementation's verdict on a pattern string."""
+    f = mm['case'].split('\t')
+    if f[0] != 'pattern':
+        return None
+    sb = b'' if f[1] == '-' else bytes.fromhex(f[1])
+    accepted = mm['impl'].startswith('ok ')
+    if _documented(sb) and not accepted:
+        return 'a pattern of the documented form is rejected: %r -> %s' % (sb[:120], mm['impl'][:60])
+    d = _defect(sb)
+    if d and accepted:
+        return 'a pattern with the documented defect [%s] is accepted: %r' % (d, sb[:120])
+    if mm['impl'].startswith('err-bad-type-or-value'):
+        return 'the error does not name the pattern with an UnacceptableOriginPatternError'
+    return None
